@@ -8,6 +8,8 @@ Import ListNotations.
 Definition qle (a b : Qc) : bool := Qle_bool (this a) (this b).
 (* numpy sorts complex numbers lexicographically (real part, then imaginary part) *)
 Definition qi_leb (a b : qi) : bool := if Qc_eq_bool (fst a) (fst b) then qle (snd a) (snd b) else qle (fst a) (fst b).
+(* comparison of magnitudes (|a|^2 <= |b|^2): the order the repaired rules sort by *)
+Definition qi_mag_leb (a b : qi) : bool := qle (qinorm2 a) (qinorm2 b).
 Definition qi_dist2 (a b : qi) : Qc := let d := qisub a b in qinorm2 d.
 Definition qi_close (tol2 : Qc) (a b : qi) : bool := qle (qi_dist2 a b) tol2.
 Definition vecl (l : list qi) : nat -> qi := fun i => nth i l qi0.
@@ -19,19 +21,20 @@ Definition out_eq (cmp : qi -> qi -> bool) (n : nat) (o : eout (R:=qi)) (w : lis
 
 (* rule under test *)
 Inductive crule :=
-| ROracle (m : nat) (w : list qi) (V : list (list qi))   (* dense / Krylov rule: the oracle's output as data *)
+| ROracle (sorted : bool) (m : nat) (w : list qi) (V : list (list qi))   (* dense / Krylov rule: the oracle's output as data; sorted = repaired rule *)
 | RIdent
-| RDiag (d : list qi)
-| RTri (A : list (list qi)) (real_buffer : bool).
+| RDiag (bymag : bool) (d : list qi)
+| RTri (bymag : bool) (lower_rule : bool) (A : list (list qi)) (real_buffer : bool).   (* lower_rule: repaired rule for a lower triangular operator *)
 Record ecase := mkecase { cn : nat; crl : crule; ck : Z; cwh : which; ctol2 : Qc;   (* squared tolerance; 0 = exact *)
                           cok : bool;                       (* the implementation returned a result *)
                           cw : list qi; cV : list (list qi) }.
 Definition run_rule (c : ecase) : option (eout (R:=qi)) :=
   match crl c with
-  | ROracle m w V => eig_oracle m (vecl w) (matl V) (ck c) (cwh c)
+  | ROracle sorted m w V => if sorted then eig_sorted qi_mag_leb m (vecl w) (matl V) (ck c) (cwh c) else eig_oracle m (vecl w) (matl V) (ck c) (cwh c)
   | RIdent => eig_ident (cn c) (ck c) (cwh c)
-  | RDiag d => eig_diag qi_leb (cn c) (vecl d) (ck c) (cwh c)
-  | RTri A rb => eig_tri qi_leb usolve (if rb then (fun x => (fst x, 0%Qc)) else (fun x => x)) (cn c) (matl A) (ck c) (cwh c)
+  | RDiag bm d => eig_diag (if bm then qi_mag_leb else qi_leb) (cn c) (vecl d) (ck c) (cwh c)
+  | RTri bm lw A rb =>
+      (if lw then eig_tri_lower else eig_tri) (if bm then qi_mag_leb else qi_leb) usolve (if rb then (fun x => (fst x, 0%Qc)) else (fun x => x)) (cn c) (matl A) (ck c) (cwh c)
   end.
 Definition check_ecase (c : ecase) : bool :=
   match run_rule c with
@@ -47,31 +50,48 @@ Definition ealg_eqb (a b : ealg) : bool :=
 Record acase := mkacase { a_sa : bool; a_small : bool; a_k : Z; a_wh : which; a_tag : ealg }.
 Definition check_acase (c : acase) : bool := ealg_eqb (auto_alg (a_sa c) (a_small c) (a_k c) (a_wh c)) (a_tag c).
 
-(* ---------- power iteration on binary64 ---------- *)
+(* ---------- power iteration on binary64 (real and complex) ---------- *)
 Open Scope float_scope.
-Definition FP : pops float := mkpops float 0 PrimFloat.add PrimFloat.sub PrimFloat.mul PrimFloat.div PrimFloat.abs PrimFloat.sqrt (fun a b => b <? a).
+Definition FP : pops float := mkpops float 0 PrimFloat.add PrimFloat.sub PrimFloat.mul PrimFloat.div PrimFloat.abs PrimFloat.sqrt (fun a b => b <? a) (fun x => x).
+Definition cfl := (float * float)%type.
+(* complex scalars; every division of the algorithm is by a real quantity (a norm, an absolute value) *)
+Definition FPC : pops cfl := mkpops cfl (0, 0)
+  (fun a b => (fst a + fst b, snd a + snd b)) (fun a b => (fst a - fst b, snd a - snd b))
+  (fun a b => (fst a * fst b - snd a * snd b, fst a * snd b + snd a * fst b))
+  (fun a b => (fst a / fst b, snd a / fst b))
+  (fun a => (PrimFloat.sqrt (fst a * fst a + snd a * snd a), 0)) (fun a => (PrimFloat.sqrt (fst a), 0))
+  (fun a b => fst b <? fst a) (fun a => (fst a, - snd a)).
 Definition fmaxf (a b : float) := if a <? b then b else a.
 Definition relclose (tol a b : float) : bool := PrimFloat.abs (a - b) <=? tol * fmaxf 1 (fmaxf (PrimFloat.abs a) (PrimFloat.abs b)).
+Section PCheck.
+Context {T : Type} (o : pops T) (re : T -> float) (close : float -> T -> T -> bool).
 (* smallest relative distance of the stopping test from its threshold along the run: the iteration count is only
    compared when it exceeds tie_tol *)
-Fixpoint pmargin (A : list (list float)) (tol : float) (fuel : nat) (s : pstate (T:=float)) (acc : float) : float :=
+Fixpoint pmargin (fl : pflags) (A : list (list T)) (tol : T) (fuel : nat) (s : pstate (T:=T)) (acc : float) : float :=
   match fuel with
   | O => acc
-  | S f => let e := perr FP s in
-           let m := PrimFloat.abs (e - tol) / fmaxf tol (PrimFloat.abs e) in
+  | S f => let e := re (perr o fl s) in let t := re tol in
+           let m := PrimFloat.abs (e - t) / fmaxf t (PrimFloat.abs e) in
            let acc := if m <? acc then m else acc in
-           if pgtb FP e tol then pmargin A tol f (pbody FP A s) acc else acc
+           if pgtb o (perr o fl s) tol then pmargin fl A tol f (pbody o fl A s) acc else acc
   end.
-Record pcase := mkpcase { pA : list (list float); ptol : float; pmax : nat; pv0 : list float;
-                          pr_eig : float; pr_iters : nat; pr_v : list float }.
+Record pcase := mkpcase { pfl : pflags; pA : list (list T); ptol : T; pmax : nat; pv0 : list T; pten : T; pone : T;
+                          pr_eig : T; pr_iters : nat; pr_v : list T }.
 (* 0 = agree, 1 = disagree, 2 = near tie (skipped) *)
 Definition check_pcase (c : pcase) : nat :=
-  let s := power_iteration FP (pA c) (ptol c) (pmax c) 10 1 (pv0 c) in
-  let mg := pmargin (pA c) (ptol c) (pmax c) (mkps 0 (pv0 c) (pv0 c) 10 1) 1 in
+  let s := power_iteration o (pfl c) (pA c) (ptol c) (pmax c) (pten c) (pone c) (pv0 c) in
+  let mg := pmargin (pfl c) (pA c) (ptol c) (pmax c) (mkps 0 (pv0 c) (pv0 c) (pten c) (pone c)) 1 in
   if mg <? 0x1.0c6f7a0b5ed8dp-20 (* 1e-6 *) then 2%nat
-  else if Nat.eqb (pit s) (pr_iters c) && relclose 0x1.12e0be826d695p-30 (* 1e-9 *) (peig s) (pr_eig c)
-          && forallb (fun p => relclose 0x1.12e0be826d695p-30 (fst p) (snd p)) (combine (pv s) (pr_v c))
+  else if Nat.eqb (pit s) (pr_iters c) && close 0x1.12e0be826d695p-30 (* 1e-9 *) (peig s) (pr_eig c)
+          && forallb (fun p => close 0x1.12e0be826d695p-30 (fst p) (snd p)) (combine (pv s) (pr_v c))
           && Nat.eqb (length (pv s)) (length (pr_v c)) then 0%nat else 1%nat.
+End PCheck.
+Definition cclose (tol : float) (a b : cfl) : bool :=
+  let d := PrimFloat.sqrt ((fst a - fst b) * (fst a - fst b) + (snd a - snd b) * (snd a - snd b)) in
+  let sc := fmaxf 1 (fmaxf (PrimFloat.sqrt (fst a * fst a + snd a * snd a)) (PrimFloat.sqrt (fst b * fst b + snd b * snd b))) in
+  d <=? tol * sc.
+Definition check_pcase_r := check_pcase FP (fun x => x) relclose.
+Definition check_pcase_c := check_pcase FPC fst cclose.
 Fixpoint codes_from {A} (chk : A -> nat) (i : nat) (cs : list A) : list (nat * nat) :=
   match cs with [] => [] | c :: r => match chk c with O => codes_from chk (S i) r | k => (i, k) :: codes_from chk (S i) r end end.
 Close Scope float_scope.
@@ -113,12 +133,30 @@ Theorem eig_diag_by_value_refuted :
             qle (mag2 (ew o 0%nat)) (mag2 (vecl w_eigh 0%nat)) = true /\ qle (mag2 (vecl w_eigh 0%nat)) (mag2 (ew o 0%nat)) = false.
 Proof. eexists. split; [reflexivity|]. split; [vm_compute; reflexivity|]. split; vm_compute; reflexivity. Qed.
 
+(* the repaired rules (sort by magnitude, then slice) return -5 on the same data *)
+Theorem sorted_by_magnitude_repaired :
+  (exists o, eig_sorted qi_mag_leb 3 (vecl w_eigh) eye 1 LM = Some o /\ qi_eqb (ew o 0%nat) (qz (-5)) = true) /\
+  (exists o, eig_sorted qi_mag_leb 2 (vecl w_eig) (matl V_eig) 1 LM = Some o /\ qi_eqb (ew o 0%nat) (qz 5) = true) /\
+  (exists o, eig_diag qi_mag_leb 3 (vecl w_eigh) 1 LM = Some o /\ qi_eqb (ew o 0%nat) (qz (-5)) = true).
+Proof. repeat split; eexists; (split; [reflexivity|vm_compute; reflexivity]). Qed.
+Lemma qi_mag_leb_total a b : qi_mag_leb a b = true \/ qi_mag_leb b a = true.
+Proof. unfold qi_mag_leb, qle. destruct (Qle_bool (this (qinorm2 a)) (this (qinorm2 b))) eqn:E; [left; reflexivity|right].
+  apply Qle_bool_iff. apply Qlt_le_weak. apply Qnot_le_lt. intros H. apply Qle_bool_iff in H. congruence. Qed.
+Lemma qi_mag_leb_trans a b c : qi_mag_leb a b = true -> qi_mag_leb b c = true -> qi_mag_leb a c = true.
+Proof. unfold qi_mag_leb, qle. rewrite !Qle_bool_iff. apply Qle_trans. Qed.
+
 (* Triangular rule applied to a LOWER triangular matrix: the routine returns the identity columns *)
 Definition L_tri : list (list qi) := [[qz 1; qz 0]; [qz 3; qz 2]].
 Theorem eig_tri_lower_refuted :
   exists o, eig_tri qi_leb usolve (fun x => x) 2 (matl L_tri) 2 LM = Some o /\ ~ EigPairs 2 (matl L_tri) o.
 Proof. eexists. split; [reflexivity|]. match goal with |- ~ EigPairs _ _ ?oo => set (o := oo) end. intros H. assert (Hk : (0 < ek o)%nat) by (vm_compute; lia); destruct (H 0%nat Hk) as [H1 _]. specialize (H1 1%nat ltac:(lia)).
   revert H1. apply qi_neq. vm_compute. reflexivity. Qed.
+
+(* the repaired rule for lower triangular operators returns eigenpairs on the same matrix *)
+Theorem eig_tri_lower_repaired :
+  exists o, eig_tri_lower qi_mag_leb usolve (fun x => x) 2 (matl L_tri) 2 LM = Some o /\
+            feqb 2 2 (mmul 2 (matl L_tri) (eV o)) (fun i j => qimul (ew o j) (eV o i j)) = true.
+Proof. eexists. split; [reflexivity|vm_compute; reflexivity]. Qed.
 
 (* complex upper-triangular input: the solutions are written into a float64 buffer and lose their imaginary part *)
 Definition U_cplx : list (list qi) := [[qic 1 1 1 1; qz 2]; [qz 0; qic 2 1 (-1) 1]].
@@ -134,14 +172,21 @@ Definition qabs (a : qi) : qi := (if qle (fst a) 0%Qc then (- fst a)%Qc else fst
 Definition qgtb (a b : qi) : bool := negb (qle (fst a) (fst b)).
 Definition A_pow : list (list qi) := [[qz (-5); qz 0; qz 0]; [qz 0; qz 1; qz 0]; [qz 0; qz 0; qz 2]].
 Theorem power_negative_refuted : forall fsqrt : qi -> qi,
-  let s := power_iteration (fo qabs fsqrt qgtb) A_pow (qc 1 1000000, 0%Qc) 100 (qz 10) (qz 1) [qz 2; qz 1; qz 1] in
+  let s := power_iteration (fo qabs fsqrt qgtb qiconj) pinned_flags A_pow (qc 1 1000000, 0%Qc) 100 (qz 10) (qz 1) [qz 2; qz 1; qz 1] in
   pit s = 1%nat /\ qi_eqb (peig s) (qz (-17)) = true.
 Proof. intros fsqrt. cbn zeta. unfold power_iteration. change 100%nat with (S (S 98)).
   set (s0 := mkps 0 [qz 2; qz 1; qz 1] [qz 2; qz 1; qz 1] (qz 10) (qz 1)).
-  set (o := fo qabs fsqrt qgtb). set (tol := (qc 1 1000000, 0%Qc)).
-  assert (E1 : pgtb o (perr o s0) tol = true) by (vm_compute; reflexivity).
-  assert (E2 : pgtb o (perr o (pbody o A_pow s0)) tol = false) by (vm_compute; reflexivity).
+  set (o := fo qabs fsqrt qgtb qiconj). set (tol := (qc 1 1000000, 0%Qc)).
+  assert (E1 : pgtb o (perr o pinned_flags s0) tol = true) by (vm_compute; reflexivity).
+  assert (E2 : pgtb o (perr o pinned_flags (pbody o pinned_flags A_pow s0)) tol = false) by (vm_compute; reflexivity).
   cbn [ploop]. rewrite E1. rewrite E2. split; [reflexivity|]. vm_compute. reflexivity. Qed.
+(* with the repaired error test abs(eigprev - eig) / abs(eig) the same run does not stop there: the test is still open
+   after the first step (relative change 27/17) *)
+Theorem power_negative_repaired : forall fsqrt : qi -> qi,
+  let o := fo qabs fsqrt qgtb qiconj in
+  let s1 := pbody o fixed_flags A_pow (mkps 0 [qz 2; qz 1; qz 1] [qz 2; qz 1; qz 1] (qz 10) (qz 1)) in
+  qi_eqb (peig s1) (qz (-17)) = true /\ pgtb o (perr o fixed_flags s1) (qc 1 1000000, 0%Qc) = true.
+Proof. intros fsqrt. cbn zeta. split; vm_compute; reflexivity. Qed.
 
 (* satisfiable hypotheses: an upper-triangular matrix with distinct diagonal and its eigenpairs from the Triangular rule *)
 Definition U_ex : list (list qi) := [[qz 2; qz 1; qz 4]; [qz 0; qz (-3); qz 5]; [qz 0; qz 0; qz 1]].
